@@ -29,10 +29,11 @@ type Prog struct {
 	NFuncs   int
 	NFiles   int
 
-	goT     map[string]bool // lazily: functions started by go statements
-	eff     *effAnalysis    // lazily: E-DOM summaries
-	cg      *callGraph      // lazily: call graph for reachability
-	touched map[string]bool // when non-nil, records the functions rules ask for by name (mutation sweep anchors)
+	goT      map[string]bool         // lazily: functions started by go statements
+	eff      *effAnalysis            // lazily: E-DOM summaries
+	cg       *callGraph              // lazily: call graph for reachability
+	crossObs map[string][]Obligation // lazily: every property's own obligations (cross pool)
+	touched  map[string]bool         // when non-nil, records the functions rules ask for by name (mutation sweep anchors)
 }
 
 // FuncInfo is one declared function or method of the repository.
